@@ -1,0 +1,145 @@
+//! Read-only verification accessors (compiled only with `--cfg daachorse_verif`).
+
+use alloc::vec::Vec;
+
+use super::{DoubleArrayAhoCorasick, DEAD_STATE_IDX, ROOT_STATE_IDX};
+use crate::utils::FromU32;
+
+/// Copy of the internal tables of an automaton.
+#[derive(Clone, Debug, Default)]
+pub struct VerifRaw {
+    /// BASE of each element (0 for none).
+    pub base: Vec<u32>,
+    /// CHECK of each element.
+    pub check: Vec<u32>,
+    /// FAIL of each element.
+    pub fail: Vec<u32>,
+    /// Output position of each element (0 for none).
+    pub output_pos: Vec<u32>,
+    /// Pattern length of each output record.
+    pub out_len: Vec<u32>,
+    /// Parent position of each output record (0 for none).
+    pub out_parent: Vec<u32>,
+    /// Valid `(code point, code)` pairs of the code mapper (empty for the byte-wise automaton).
+    pub mapper: Vec<(u32, u32)>,
+    /// Length of the mapper table (0 for the byte-wise automaton).
+    pub mapper_len: u32,
+    /// Alphabet size of the code mapper (256 for the byte-wise automaton).
+    pub alphabet_size: u32,
+    /// Match kind as its serialized byte.
+    pub match_kind: u8,
+    /// Reported number of states.
+    pub num_states: u32,
+}
+
+/// Result of a guarded transition.
+#[derive(Clone, Copy, Debug, Eq, PartialEq)]
+pub enum VerifStep {
+    /// An index involved in the transition lies outside the state array; no read was performed.
+    Oob,
+    /// No transition.
+    None,
+    /// The resulting state index.
+    Some(u32),
+}
+
+impl<V> DoubleArrayAhoCorasick<V>
+where
+    V: Copy,
+{
+    /// Returns a copy of the internal tables.
+    #[must_use]
+    pub fn verif_raw(&self) -> VerifRaw {
+        VerifRaw {
+            base: self
+                .states
+                .iter()
+                .map(|s| s.base().map_or(0, core::num::NonZeroU32::get))
+                .collect(),
+            check: self.states.iter().map(|s| u32::from(s.check())).collect(),
+            fail: self.states.iter().map(super::State::fail).collect(),
+            output_pos: self
+                .states
+                .iter()
+                .map(|s| s.output_pos().map_or(0, core::num::NonZeroU32::get))
+                .collect(),
+            out_len: self.outputs.iter().map(|o| o.length()).collect(),
+            out_parent: self
+                .outputs
+                .iter()
+                .map(|o| o.parent().map_or(0, core::num::NonZeroU32::get))
+                .collect(),
+            mapper: Vec::new(),
+            mapper_len: 0,
+            alphabet_size: 256,
+            match_kind: u8::from(self.match_kind),
+            num_states: self.num_states,
+        }
+    }
+
+    /// Returns the value of the `i`-th output record.
+    #[must_use]
+    pub fn verif_output_value(&self, i: usize) -> V {
+        self.outputs[i].value()
+    }
+
+    /// Calls the implementation's own child lookup for an arbitrary state after checking that
+    /// every index it will read is in range.
+    #[must_use]
+    pub fn verif_child(&self, state_id: u32, c: u8) -> VerifStep {
+        let len = self.states.len();
+        if usize::from_u32(state_id) >= len {
+            return VerifStep::Oob;
+        }
+        if let Some(base) = self.states[usize::from_u32(state_id)].base() {
+            if usize::from_u32(base.get() ^ u32::from(c)) >= len {
+                return VerifStep::Oob;
+            }
+        }
+        // All indices read by child_index_unchecked() have been checked above.
+        match unsafe { self.child_index_unchecked(state_id, c) } {
+            Some(x) => VerifStep::Some(x),
+            None => VerifStep::None,
+        }
+    }
+
+    /// Calls the implementation's own transition function for an arbitrary state after a
+    /// bounds-checked dry run of the same walk.
+    #[must_use]
+    pub fn verif_next_state(&self, state_id: u32, c: u8, leftmost: bool) -> VerifStep {
+        let mut s = state_id;
+        let mut fuel = self.states.len() + 1;
+        loop {
+            match self.verif_child(s, c) {
+                VerifStep::Oob => return VerifStep::Oob,
+                VerifStep::Some(_) => break,
+                VerifStep::None => {}
+            }
+            if s == ROOT_STATE_IDX {
+                break;
+            }
+            let f = self.states[usize::from_u32(s)].fail();
+            if leftmost && f == DEAD_STATE_IDX {
+                break;
+            }
+            if usize::from_u32(f) >= self.states.len() {
+                return VerifStep::Oob;
+            }
+            if fuel == 0 {
+                return VerifStep::None;
+            }
+            fuel -= 1;
+            s = f;
+        }
+        let (p, h) = crate::verif_hooks::counters();
+        let r = unsafe {
+            if leftmost {
+                self.next_state_id_leftmost_unchecked(state_id, c)
+            } else {
+                self.next_state_id_unchecked(state_id, c)
+            }
+        };
+        crate::verif_hooks::restore(p, h);
+        VerifStep::Some(r)
+    }
+}
